@@ -5,6 +5,8 @@ package interp
 import (
 	"fmt"
 	"go/token"
+	"go/types"
+	"math"
 	"os"
 	"runtime"
 	"runtime/debug"
@@ -49,6 +51,9 @@ type Options struct {
 	SolverArgv     []string
 	Trace          bool
 	MaxViolations  int
+	Tier           int // 0 quick, 1 thorough (read by harnesses through vfTier)
+	MaxSamples     int // ok-paths whose model is kept for native cross-validation
+	SampleEvery    int
 }
 
 func DefaultOptions() Options {
@@ -60,6 +65,8 @@ func DefaultOptions() Options {
 		Workers:        runtime.NumCPU(),
 		QueryTimeoutMs: 20000,
 		MaxViolations:  5,
+		MaxSamples:     12,
+		SampleEvery:    1,
 	}
 }
 
@@ -72,7 +79,17 @@ type Violation struct {
 	Notes     []string          `json:"notes,omitempty"`
 }
 
+// Sample is a fully explored path with a model of its path condition and the values
+// the harness noted (vfNote) evaluated under that model; used for native cross-validation.
+type Sample struct {
+	Decisions string            `json:"decisions"`
+	Model     map[string]uint64 `json:"model"`
+	Notes     []string          `json:"notes"`
+	PC        string            `json:"pc,omitempty"`
+}
+
 type PathResult struct {
+	Sample     *Sample
 	Decisions  []bool
 	Outcome    string // ok | assume | cut | unsupported | engine | budget
 	Msg        string
@@ -82,7 +99,6 @@ type PathResult struct {
 	NewDec     int
 	Asserts    int // assertion queries discharged (unsat) on this path
 	AssertsUnk int
-	Notes      []string
 	PCSample   string
 	Leaks      int
 }
@@ -94,7 +110,7 @@ type pathState struct {
 	steps      int64
 	violations []Violation
 	reach      []string
-	notes      []string
+	notes      []value
 	pcSet      map[*Term]bool
 	lastModel  map[string]uint64
 	modelPC    int // number of pc conjuncts lastModel is known to satisfy
@@ -342,8 +358,52 @@ func (i *interpreter) recordViolation(label, msg string, m map[string]uint64) {
 	}
 	p.violations = append(p.violations, Violation{
 		Label: label, Msg: msg, Model: cp, Decisions: decString(p.decisions),
-		Notes: append([]string{}, p.notes...),
+		Notes: i.evalNotes(cp),
 	})
+}
+
+// evalNotes renders the noted values under model m.
+func (i *interpreter) evalNotes(m map[string]uint64) []string {
+	var out []string
+	memo := map[*Term]uint64{}
+	for _, n := range i.path.notes {
+		out = append(out, i.evalToString(n, m, memo))
+	}
+	return out
+}
+
+func (i *interpreter) evalToString(v value, m map[string]uint64, memo map[*Term]uint64) (s string) {
+	defer func() {
+		if r := recover(); r != nil {
+			s = fmt.Sprintf("<unevaluable: %v>", r)
+		}
+	}()
+	switch x := v.(type) {
+	case string:
+		return x
+	case symStr:
+		b := make([]byte, len(x.b))
+		for k, c := range x.b {
+			if u, ok := c.(uint8); ok {
+				b[k] = u
+			} else {
+				b[k] = byte(c.(symV).t.eval(m, memo))
+			}
+		}
+		return string(b)
+	case symV:
+		r := x.t.eval(m, memo)
+		switch {
+		case x.k == types.Bool:
+			return fmt.Sprint(r == 1)
+		case x.k == types.Float64:
+			return fmt.Sprint(math.Float64frombits(r))
+		case kindSigned(x.k):
+			return fmt.Sprint(signExt(r, x.t.sort.w))
+		}
+		return fmt.Sprint(r)
+	}
+	return fmt.Sprint(v)
 }
 
 // panicString renders a target panic value.
@@ -393,6 +453,14 @@ func (i *interpreter) tryErrorString(itf iface) (s string, ok bool) {
 		return x.String(), true
 	}
 	return "", false
+}
+
+func (i *interpreter) wantSample() bool {
+	i.sampleCtr++
+	if i.opts.SampleEvery <= 1 {
+		return i.sampleCtr <= 64
+	}
+	return i.sampleCtr%i.opts.SampleEvery == 1
 }
 
 // runPath executes the harness once under the given decision prefix.
@@ -452,7 +520,17 @@ func (i *interpreter) runPath(h *ssa.Function, prefix []bool) (res *PathResult) 
 	res.NewDec = p.newDec
 	res.Asserts = p.asserts
 	res.AssertsUnk = p.assertsUnk
-	res.Notes = p.notes
+	if res.Outcome == "ok" && len(p.violations) == 0 && i.wantSample() {
+		func() {
+			defer func() { recover() }()
+			m := i.currentModel()
+			cp := map[string]uint64{}
+			for k, v := range m {
+				cp[k] = v
+			}
+			res.Sample = &Sample{Decisions: decString(p.decisions), Model: cp, Notes: i.evalNotes(cp)}
+		}()
+	}
 	if len(p.pc) > 0 && len(p.pc) <= 40 {
 		var parts []string
 		for _, c := range p.pc {
@@ -500,6 +578,7 @@ type HarnessResult struct {
 	CutMsgs      map[string]int
 	ProblemMsgs  map[string]int // unsupported / engine messages
 	Samples      []string
+	PathSamples  []*Sample
 	Leaks        int
 	Wall         float64
 	PathCapHit   bool
@@ -551,6 +630,7 @@ func (pl *Pool) Run(h *ssa.Function, opts Options) *HarnessResult {
 		in.opts = opts
 		before[w] = in.solver.stats
 		in.funcs = map[*ssa.Function]bool{}
+		in.sampleCtr = 0
 		go func(in *interpreter) {
 			defer wg.Done()
 			for {
@@ -604,6 +684,10 @@ func (pl *Pool) Run(h *ssa.Function, opts Options) *HarnessResult {
 				}
 				if len(hr.Samples) < 6 && res.Outcome == "ok" && res.PCSample != "" {
 					hr.Samples = append(hr.Samples, res.PCSample)
+				}
+				if res.Sample != nil && len(hr.PathSamples) < opts.MaxSamples {
+					res.Sample.PC = res.PCSample
+					hr.PathSamples = append(hr.PathSamples, res.Sample)
 				}
 				queue = append(queue, in.path.siblings...)
 				if hr.Paths >= opts.MaxPaths {
